@@ -180,6 +180,16 @@ impl Repr {
             self as *const _ as *const u8
         };
 
+        #[cfg(feature = "verif-hooks")]
+        if self.is_heap_buffer() {
+            crate::verif_hooks::note(
+                crate::verif_hooks::Access::Read,
+                ptr,
+                0,
+                len,
+                "Repr::as_bytes",
+            );
+        }
         // SAFETY: data (`ptr`) is valid, aligned, and part of the same contiguous allocated `len`
         // chunk
         unsafe { slice::from_raw_parts(ptr, len) }
@@ -504,6 +514,14 @@ impl Repr {
                     // SAFETY: `ptr` is valid for `len` bytes, and `HeapBuffer` contains valid UTF-8.
                     let str = unsafe {
                         let ptr = self.0 as *mut u8;
+                        #[cfg(feature = "verif-hooks")]
+                        crate::verif_hooks::note(
+                            crate::verif_hooks::Access::Read,
+                            ptr,
+                            0,
+                            new_len,
+                            "Repr::truncate_unchecked",
+                        );
                         let slice = slice::from_raw_parts_mut(ptr, new_len);
                         str::from_utf8_unchecked_mut(slice)
                     };
@@ -653,6 +671,14 @@ impl Repr {
             // SAFETY: We just checked that `self` is HeapBuffer
             let heap = unsafe { self.as_heap_buffer() };
             debug_assert!(heap.is_unique());
+            #[cfg(feature = "verif-hooks")]
+            crate::verif_hooks::note(
+                crate::verif_hooks::Access::Write,
+                ptr,
+                0,
+                heap.capacity(),
+                "Repr::as_slice_mut",
+            );
             (ptr, heap.capacity())
         } else {
             let ptr = self as *mut _ as *mut u8;
@@ -703,6 +729,20 @@ impl Repr {
             // - From `#Safety`, `new_len <= MAX_INLINE_SIZE` is true.
             unsafe { self.as_inline_buffer_mut().set_len(new_len) };
         }
+    }
+
+    #[cfg(feature = "verif-hooks")]
+    pub(crate) fn verif_refcount(&self) -> Option<usize> {
+        if self.is_heap_buffer() {
+            // SAFETY: We just checked that `self` is HeapBuffer
+            let count = unsafe { self.as_heap_buffer() }.reference_count();
+            #[cfg(loom)]
+            // SAFETY: the caller guarantees that no other thread is running.
+            return Some(unsafe { count.unsync_load() });
+            #[cfg(not(loom))]
+            return Some(count.load(Relaxed));
+        }
+        None
     }
 
     #[inline(always)]
